@@ -10,6 +10,20 @@ CODEC = re.compile(r"^(\w+)::(from|to)_(le|be|ne)_bytes$")
 WIDTH = {"u8": 1, "i8": 1, "u16": 2, "i16": 2, "u32": 4, "i32": 4, "f32": 4, "u64": 8, "i64": 8, "f64": 8, "u128": 16, "i128": 16}
 
 
+def _fn_items(x, out):
+    """function items used as values (`flat_map(u32::to_be_bytes)`) anywhere inside a statement / terminator"""
+    if isinstance(x, dict):
+        k = x.get("k")
+        if isinstance(k, dict) and isinstance(k.get("fn"), dict) and k["fn"].get("q"):
+            out.append(k["fn"]["q"])
+        for kk, v in x.items():
+            if kk not in ("sp", "f"):
+                _fn_items(v, out)
+    elif isinstance(x, list):
+        for v in x:
+            _fn_items(v, out)
+
+
 def codec_calls(facts, bodies):
     out = []
     for b in bodies:
@@ -17,6 +31,14 @@ def codec_calls(facts, bodies):
             m = CODEC.match(t["f"].get("q") or "")
             if m:
                 out.append((m.group(1), m.group(2), m.group(3), b, bb))
+        for bb in sorted(b.reachable(0)):
+            items = []
+            _fn_items(b.blocks[bb]["stmts"], items)
+            _fn_items(b.term(bb).get("args") or [], items)
+            for q in items:
+                m = CODEC.match(q)
+                if m:
+                    out.append((m.group(1), m.group(2), m.group(3), b, bb))
     return out
 
 
@@ -501,7 +523,7 @@ def run(ctx):
     ctx.floor("C14.R6", 1, "SigMFSource's restart seek (archive member offset) - same rule as C16.R7")
     ctx.floor("C14.R5", 3, "carry-buffer drops in FileSource (drain), SigMFSource (drain), TcpSource (clear)")
     ctx.floor("C14.R1", 6, "5 numeric Sample impls + the AU pair")
-    ctx.floor("C14.R2", 3, "AuDecode state transitions")
+    ctx.floor("C14.R2", 1, "AuDecode state transitions (3 assignments today; a decoder that computes the next state per arm and stores it once has 1)")
     ctx.floor("C14.R3", 20, "content-tainted arithmetic/index sites of the byte sources and codecs")
     ctx.floor("C14.R4", 1, "FileSource fast path")
     ctx.explain("C14 (partial): every numeric `impl Sample` parses and serialises with the same primitive type and byte order and size() "
